@@ -308,12 +308,12 @@ impl<'a> TyGen<'a> {
         }
     }
 
-    fn new_struct(&mut self, fields: Vec<Ty>) -> Ty {
+    pub fn new_struct(&mut self, fields: Vec<Ty>) -> Ty {
         if let Some(i) = self.d.structs.iter().position(|f| *f == fields) { return Ty::Struct(i); }
         self.d.structs.push(fields);
         Ty::Struct(self.d.structs.len() - 1)
     }
-    fn new_enum(&mut self, variants: Vec<Ty>) -> Ty {
+    pub fn new_enum(&mut self, variants: Vec<Ty>) -> Ty {
         if let Some(i) = self.d.enums.iter().position(|f| *f == variants) { return Ty::Enum(i); }
         self.d.enums.push(variants);
         Ty::Enum(self.d.enums.len() - 1)
@@ -458,6 +458,67 @@ impl<'a> TyGen<'a> {
             Ty::TrivialEnum(t) => Val::Seq(vec![self.val(t)]),
         }
     }
+}
+
+// ----------------------------------------------------------------------------- systematic small types
+
+/// Deterministic enumeration of small type shapes that runs before the random stream on every run:
+/// leaves L (sub-word, word, multi-word, odd-sized byte arrays, str[N], unit), every depth-1 aggregate kind over L
+/// (structs/tuples with 1, 2, 3 fields so that each leaf occurs first / middle / last; enums with 1, 2, 3 variants:
+/// all-equal payloads, a unit variant on either side, mixed sizes; arrays of 0..3; Vec; Option) and a depth-2 layer
+/// that wraps every third depth-1 shape once in a 1-field struct / 2-field struct with a sub-word neighbour /
+/// array of 2 / Vec / enum variant. Independent of the seed (values are drawn from the run's PRNG).
+pub fn systematic_types(g: &mut TyGen) -> Vec<Ty> {
+    let arr = |t: Ty, n: usize| Ty::Array(Box::new(t), n);
+    let mut leaves = vec![Ty::U8, Ty::Bool, Ty::U16, Ty::U32, Ty::U64, Ty::B256, Ty::U256, Ty::Unit];
+    for n in [1usize, 3, 7, 8, 9, 12, 16, 33] { leaves.push(arr(Ty::U8, n)); }
+    leaves.push(arr(Ty::Bool, 5));
+    for n in [1usize, 7, 8, 9] { leaves.push(Ty::StrArray(n)); }
+    let n = leaves.len();
+    let l = |i: usize| leaves[i % n].clone();
+    let mut out: Vec<Ty> = leaves.clone();
+    let mut d1: Vec<Ty> = vec![];
+    for i in 0..n {
+        // structs: 1, 2, 3 fields — leaf i is first, leaf i+7 last (2 fields), i+5 middle / i+11 last (3 fields)
+        d1.push(g.new_struct(vec![l(i)]));
+        d1.push(g.new_struct(vec![l(i), l(i + 7)]));
+        d1.push(g.new_struct(vec![l(i), l(i + 5), l(i + 11)]));
+        // tuples likewise (other partners)
+        d1.push(Ty::Tuple(vec![l(i)]));
+        d1.push(Ty::Tuple(vec![l(i), l(i + 3)]));
+        if i % 2 == 0 { d1.push(Ty::Tuple(vec![l(i + 9), l(i), l(i + 4)])); }
+        // enums: one variant, all-equal payloads, a unit variant on either side, mixed sizes
+        d1.push(g.new_enum(vec![l(i)]));
+        d1.push(g.new_enum(vec![l(i), l(i)]));
+        if i % 3 == 0 { d1.push(g.new_enum(vec![l(i), l(i), l(i)])); }
+        d1.push(Ty::Option(Box::new(l(i))));
+        d1.push(g.new_enum(vec![l(i), Ty::Unit]));
+        d1.push(g.new_enum(vec![l(i), l(i + 7)]));
+        if i % 2 == 1 { d1.push(g.new_enum(vec![l(i + 2), Ty::Unit, l(i)])); }
+        // arrays and Vec (not of unit)
+        if l(i) != Ty::Unit {
+            d1.push(arr(l(i), 1 + i % 3));
+            d1.push(arr(l(i), 1 + (i + 1) % 3));
+            if i % 5 == 0 { d1.push(arr(l(i), 0)); }
+            d1.push(Ty::Vec(Box::new(l(i))));
+        }
+    }
+    d1.dedup();
+    let mut d2 = vec![];
+    for (k, t) in d1.iter().enumerate() {
+        if k % 3 != 0 || g.d.size_rt(t) == 0 { continue; }
+        let t = t.clone();
+        d2.push(match (k / 3) % 5 {
+            0 => g.new_struct(vec![t]),
+            1 => g.new_struct(vec![t, Ty::U8]),
+            2 => arr(t, 2),
+            3 => Ty::Vec(Box::new(t)),
+            _ => g.new_enum(vec![t, Ty::U8]),
+        });
+    }
+    out.extend(d1);
+    out.extend(d2);
+    out
 }
 
 // ----------------------------------------------------------------------------- JSON ABI -> type tree
